@@ -14,9 +14,6 @@ Abs(a) == IF a < 0 THEN 0 - a ELSE a
 SetMin(S) == CHOOSE m \in S : \A x \in S : m <= x
 SetMax(S) == CHOOSE m \in S : \A x \in S : x <= m
 Range(s) == {s[i] : i \in DOMAIN s}
-\* floor / ceiling of a/b for b > 0 (TLC \div floors already; kept explicit for readability)
-FloorDiv(a, b) == a \div b
-CeilDiv(a, b) == 0 - ((0 - a) \div b)
 
 Dim(box) == Len(box.lo)
 
